@@ -7,7 +7,9 @@
 package ev
 
 import (
+	"crypto/rand"
 	"crypto/sha256"
+	"encoding/binary"
 	"encoding/hex"
 	"encoding/json"
 	"flag"
@@ -296,6 +298,44 @@ func (c *Ctx) write() {
 	}
 }
 
+// detRand is the default crypto/rand.Reader of every harness process: a SHA-256 counter stream keyed by
+// property, seed and shard, so that a run is reproducible bit for bit (VERIF_SEED varies the data).
+// Single-byte reads (rsa's randutil.MaybeReadByte, which happens or not at random) are served from a
+// separate stream so that they do not shift the main one.
+type detRand struct {
+	key  []byte
+	ctr  uint64
+	ctr1 uint64
+	buf  []byte
+}
+
+func (d *detRand) block(domain byte, n uint64) []byte {
+	h := sha256.New()
+	h.Write(d.key)
+	var b [9]byte
+	b[0] = domain
+	binary.BigEndian.PutUint64(b[1:], n)
+	h.Write(b[:])
+	return h.Sum(nil)
+}
+
+func (d *detRand) Read(p []byte) (int, error) {
+	if len(p) == 1 {
+		p[0] = d.block(1, d.ctr1)[0]
+		d.ctr1++
+		return 1, nil
+	}
+	for i := range p {
+		if len(d.buf) == 0 {
+			d.buf = d.block(0, d.ctr)
+			d.ctr++
+		}
+		p[i] = d.buf[0]
+		d.buf = d.buf[1:]
+	}
+	return len(p), nil
+}
+
 // Main runs a harness body. A panic escaping the body is an infrastructure error
 // (exit 2) unless the harness itself recovered it and turned it into a violation.
 func Main(property string, body func(c *Ctx)) {
@@ -320,6 +360,7 @@ func Main(property string, body func(c *Ctx)) {
 	c.res = &Result{Property: property, Variant: *variant, Tier: *tier, Seed: *seed, Shard: *shard, NShards: *nshards,
 		Parts: map[string]*PartStat{}, Outcomes: map[string]int64{}, Samples: []interface{}{}, Violations: []Violation{}}
 	c.Part("main")
+	rand.Reader = &detRand{key: []byte(fmt.Sprintf("verif-rand|%s|%s|%d|%d/%d", property, *variant, *seed, *shard, *nshards))}
 	defer func() {
 		if r := recover(); r != nil {
 			c.res.Panicked = fmt.Sprintf("%v\n%s", r, debug.Stack())
